@@ -76,6 +76,6 @@ GNext == \/ \E c \in Conns : GConnect(c)
          \/ \E k \in Keys, p \in Keys : INotifyGone(k, p)
 GSpec == GInit /\ [][GNext]_gvars
 
-Emit == (Quiescent /\ Len(hist) > Len(Pre)) =>
+Emit == (Quiescent /\ Len(hist) > 0) =>
           PrintT(<<"REPLAY", ToJson([steps |-> hist, final |-> Marks, wire |-> wire])>>)
 =============================================================================
